@@ -744,12 +744,23 @@ def clsOf (tbl : List ClsKey) (k : ClsKey) : Nat := tbl.idxOf k
 
 def keyTyId (k : ClsKey) : TyId := ⟨k.name, k.major, k.minor, false⟩
 
-/-- `obj.field = pkg.Name_M(...)`: the candidate is an instance of whatever class the package alias `Name_M` is bound
-to (`AttributeError` if the package has no such alias); the field is declared as `decl`. -/
+/-- The alias name `Name_major` of `Namespace.j2`. -/
+def aliasName (name : String) (major : Nat) : String := s!"{name}_{major}"
+
+/-- `short_reference_name` of a class. -/
+def keyRef (k : ClsKey) : String := s!"{k.name}_{k.major}_{k.minor}"
+
+/-- `obj.field = pkg.Name_M(...)`: the candidate is an instance of whatever the attribute `Name_M` of the package is
+bound to — a class of the package that is itself called `Name_M` (it keeps its name: repaired `Namespace.j2`),
+else the newest-minor alias (`AttributeError` if the package has neither); the field is declared as `decl`. -/
 def setViaAlias (np : Oracle) (tbl : List ClsKey) (decl : ClsKey) (union : Bool) (fs : List Ty)
     (pkg : List String) (name : String) (major : Nat) (slots : List Py) : Except Exc Py :=
-  match newestMinor ((tbl.filter (fun k => k.ns = pkg)).map keyTyId) name major with
-  | some k => setField np (.comp (clsOf tbl decl) union fs) (.obj (clsOf tbl ⟨pkg, name, major, k⟩) slots)
-  | none => .error .other
+  let here := tbl.filter (fun k => k.ns = pkg)
+  match here.find? (fun k => keyRef k = aliasName name major) with
+  | some k => setField np (.comp (clsOf tbl decl) union fs) (.obj (clsOf tbl k) slots)
+  | none =>
+    match newestMinor (here.map keyTyId) name major with
+    | some k => setField np (.comp (clsOf tbl decl) union fs) (.obj (clsOf tbl ⟨pkg, name, major, k⟩) slots)
+    | none => .error .other
 
 end NunavutVerif.PyObj
